@@ -191,7 +191,9 @@ def announced(ov, argtypes, function):
 
 
 def _is_value_type(t):
-    return isinstance(t, type)
+    # `*` is never a value, however the implementation happens to represent it (it must not be read off the
+    # implementation's object: a class there would make `*` match every `Any` slot here too)
+    return isinstance(t, type) and t is not _bt.Asterisk
 
 
 def _slot_matches(declared, t):
